@@ -29,7 +29,7 @@ Compatible(a, b) == /\ a \in {DevSeq[i] : i \in 1..Len(DevSeq)} /\ b \in {DevSeq
 \* sends the terminal's own key agreement key back and then the terminal's own token T_IFD as T_IC. With
 \* PK_IC = PK_IFD both tokens are MACs of the same key over the same point, so only the comparison of the two public
 \* keys (Doc 9303-11 4.4.1 d) stands between it and success.  EchoCheck = FALSE is the design without that comparison.
-CONSTANT EchoCheck
+CONSTANTS EchoCheck, ParamsOfLast
 
 VARIABLES mapping, dev, dev2, done, termResult, camResult, termSM, chipSM, chipCompleted, chipCamGenuine
 
@@ -144,4 +144,20 @@ AsBuiltSelect(S) == IF \E i \in S : Known(i)
                     THEN CHOOSE i \in S : Known(i) /\ \A j \in S : Known(j) => j.w <= i.w
                     ELSE [fam |-> "none", w |-> 0]
 SelectOK(S) == (\E i \in S : Supported(i)) => Supported(AsBuiltSelect(S))
+
+\* The selection as the loop it is (selectPaceConfig walks the PACEInfos in file order): an entry additionally carries its
+\* parameter id `pid`; the loop keeps the best entry so far AND the domain parameters that go with it. The configuration
+\* handed to MSE:Set AT is (protocol of the kept entry, kept parameter id): it must be ONE advertised entry, not a mixture.
+\*   ParamsOfLast   the design that resolves the domain parameters of every usable entry while walking and keeps the
+\*                  last resolved ones (protocol of the preferred entry, curve of another)
+NoEntry == [fam |-> "none", w |-> 0, pid |-> -1]
+RECURSIVE SelectFold(_, _, _, _)
+SelectFold(seq, k, best, pid) ==
+  IF k > Len(seq) THEN [fam |-> best.fam, w |-> best.w, pid |-> pid]
+  ELSE LET e == seq[k] IN
+       IF ~Known(e) THEN SelectFold(seq, k + 1, best, pid)
+       ELSE IF best = NoEntry \/ e.w > best.w THEN SelectFold(seq, k + 1, e, e.pid)
+       ELSE SelectFold(seq, k + 1, best, IF ParamsOfLast THEN e.pid ELSE pid)
+SelectedConfig(seq) == SelectFold(seq, 1, NoEntry, -1)
+Coupled(seq) == LET cfg == SelectedConfig(seq) IN cfg.fam # "none" => \E k \in 1..Len(seq) : seq[k] = cfg
 =============================================================================
